@@ -204,7 +204,7 @@ func (fr *Frame) callStatic(fn *ssa.Function, args []Val, bindings []Val, pos to
 		return v
 	}
 	// contract? (in spec mode a loop-free body is its own strongest postcondition: inline it)
-	if ct := c.eng.contractOf(fn); ct != nil && ct.Flags["inline"] == "" {
+	if ct := c.eng.contractOf(fn); ct != nil && ct.Flags["inline"] == "" && !(c.forceInline && ct.Flags["assumed"] == "" && len(fn.Blocks) > 0) {
 		loopFree := len(fn.Blocks) > 0 && len(c.eng.funcInfo(fn).loops) == 0
 		if !((fr.spec || fr.inQuant) && loopFree && ct.Flags["opaque"] == "" && ct.Flags["assumed"] == "" && ct.Flags["pure"] == "" && !c.onStack(fn) && fr.depth < c.eng.maxDepth) {
 			return fr.useContract(fn, ct, args, pos, resType)
